@@ -76,6 +76,9 @@ type Case struct {
 	IndexMode   string `json:"index_mode,omitempty"`
 	IndexFaults []int  `json:"index_faults,omitempty"`
 	Retry       int    `json:"retry,omitempty"` // cli: --error-retry value; s3/http targets: StoreOptions.ErrorRetry
+	// Refuse: http / http-plain targets: status with which a faulted PUT is answered instead of 500 (0 = 500). A 4xx
+	// refusal (the server did not store the object) is final: no retry budget covers it
+	Refuse int `json:"refuse,omitempty"`
 
 	// the target store of chop/make/copy/stream: "" or "mem" (dx.MemStore), "local" (desync.LocalStore
 	// in a scratch directory), "s3" (desync.S3Store through internal/fakes3), "http" (desync.RemoteHTTP
@@ -122,6 +125,10 @@ var targetMix = func() []string {
 
 // the commands' own plumbing (which chunks are handed to the store, option handling) is only reached through
 // the binary: both tiers drive it, the quick tier for a smaller share of its cases
+// refusals: statuses with which an HTTP object store says "not stored" (WebDAV answers 409 for a missing parent
+// collection, 507 when full, 423 for a locked resource, proxies answer 403/413/429)
+var refusals = []int{400, 401, 403, 404, 405, 409, 409, 410, 412, 413, 423, 429, 451}
+
 func cliEnabled() bool { return os.Getenv("VERIF_DESYNC_BIN") != "" }
 
 // ------------------------------------------------------------------ generators
@@ -295,6 +302,9 @@ func genCase(t *rapid.T) Case {
 			c.Unc = rapid.IntRange(0, 3).Draw(t, "punc") == 0
 		}
 		c.Retry = rapid.SampledFrom([]int{0, 0, 1, 3}).Draw(t, "retry")
+		if (c.Target == "http" || c.Target == "http-plain") && rapid.Bool().Draw(t, "refuse") {
+			c.Refuse = rapid.SampledFrom(refusals).Draw(t, "refusal")
+		}
 	}
 	if c.Target == "short" {
 		c.Target, c.ShortWrite = "local", true
@@ -308,6 +318,9 @@ func genCase(t *rapid.T) Case {
 	}
 	c.Pieces = dupBlob(t, c.Sizes, maxLen)
 	c.Faults = genFaults(t, c.Op)
+	if c.Refuse != 0 { // a refusal needs a faulted PUT among the first few
+		c.Faults = append(c.Faults, Fault{Store: "dst", Kind: "store", K: rapid.IntRange(1, 4).Draw(t, "refusek")})
+	}
 	if rapid.IntRange(0, 9).Draw(t, "prefill") < 4 {
 		c.PrefillEvery = rapid.SampledFrom([]int{1, 2, 2, 3, 5, 17}).Draw(t, "pevery")
 		c.PrefillRem = rapid.IntRange(0, 16).Draw(t, "prem")
@@ -743,6 +756,9 @@ func run(c Case) (o hx.Outcome) {
 			o.Class(fmt.Sprintf("%s:error-retry=%d", tg.kind, clamp(c.Retry, 0, 5)))
 			if len(tgDelivered) > 0 {
 				o.Class(tg.kind + ":fault-delivered")
+				if strings.Contains(tgDelivered[len(tgDelivered)-1], ":refused-") {
+					o.Class("http:put-refused-4xx", fmt.Sprintf("http:put-refused-%d", c.Refuse))
+				}
 				switch {
 				case tgFail:
 					o.Class(tg.kind + ":fault-not-absorbed")
@@ -977,7 +993,7 @@ var spec = &hx.Spec[Case]{
 	Rule: "cases = (blob with many duplicate chunks: constant runs of k*max, repeats of earlier content; (min,avg,max); n in 1..16; operation in {make = IndexFromFile+ChopFile, ChopFile with a reference-built index, " +
 		"Copy over the index's IDs incl. duplicates, ChunkStream, ChunkStorage used directly with retries; thorough: desync make/chop/cache/tar -i against a harness HTTP store}; target optionally prefilled; " +
 		"target store of chop/make/copy/stream in {MemStore; desync.LocalStore in a scratch directory (compressed/uncompressed; optionally with a regular file in place of a prefix directory; optionally in a child process under RLIMIT_FSIZE so that chunk file writes are cut short); " +
-		"desync.S3Store through the in-process fake S3 (compressed/uncompressed, ErrorRetry 0/1/3, scripted 403 on the k-th PUT/HEAD); desync.RemoteHTTP -> desync.NewHTTPHandler -> LocalStore (ErrorRetry 0/1/3, scripted 500 on the k-th PUT/HEAD)}, judged on the backing files/objects read through a back door and, after success, by reading every chunk back through the store's own GetChunk (bytes == input range); " +
+		"desync.S3Store through the in-process fake S3 (compressed/uncompressed, ErrorRetry 0/1/3, scripted 403 on the k-th PUT/HEAD); desync.RemoteHTTP -> desync.NewHTTPHandler -> LocalStore (ErrorRetry 0/1/3, scripted 500 on the k-th PUT/HEAD; in 1 case of 2 with such a target a faulted PUT is answered with a 4xx refusal instead - 400 401 403 404 405 409 410 412 413 423 429 451 - which is final whatever the retry budget)}, judged on the backing files/objects read through a back door and, after success, by reading every chunk back through the store's own GetChunk (bytes == input range); " +
 		"Copy sources: MemStore (plain chunks) or LocalStore compressed/uncompressed, verifying or not (storage form only), x every target format incl. an HTTP object store that keeps PUT bodies verbatim (compressed or uncompressed naming); " +
 		"chunk sizes incl. triples with max above 256 KiB (512 KiB..1 MiB, inputs of a few chunks) so that chunks larger than desync's default maximum are stored and read back; " +
 		"index op: the reference index written through an io.Writer failing after k bytes, or through RemoteHTTPIndex (desync's HTTPIndexHandler over LocalIndexStore / a plain handler; faulted PUT attempts x ErrorRetry 0/1/3 x fault mode), S3IndexStore, SFTPIndexStore, LocalIndexStore; nil => stored bytes decode to exactly that index, unabsorbed fault => error, nothing partial under the name after an error; " +
@@ -1009,7 +1025,7 @@ var spec = &hx.Spec[Case]{
 		"chunk>256KiB:compressed-target:local", "chunk>256KiB:compressed-target:s3", "chunk>256KiB:compressed-target:http", "chunk>256KiB:uncompressed-target",
 		"index-target:http", "index-target:http-plain", "index-target:s3", "index-target:local", "index-target:sftp", "index-target:http:first-put-fails-then-ok", "index-target:http:all-attempts-fail",
 		"index-target:http:error-retry=0", "index-target:http:error-retry=3", "index-target:s3:fault-delivered", "index-target:local:dir-in-the-way", "index:stored", "index:store-error",
-		"s3:fault-not-absorbed", "s3:fault-absorbed-by-retry", "http:fault-not-absorbed", "http:fault-absorbed-by-retry", "local:blocked-dir", "local:short-write", "local:short-write-delivered"},
+		"s3:fault-not-absorbed", "s3:fault-absorbed-by-retry", "http:fault-not-absorbed", "http:fault-absorbed-by-retry", "local:blocked-dir", "local:short-write", "local:short-write-delivered", "http:put-refused-4xx", "http:put-refused-409"},
 	Gen:      genCase,
 	Run:      run,
 	Journal:  true,
